@@ -55,6 +55,8 @@ class Tr:
         if isinstance(e, ast.Attribute):
             if isinstance(e.value, ast.Name) and e.value.id == 'np' and e.attr == 'inf':
                 return 'EInf'
+            if isinstance(e.value, ast.Name) and e.attr == 'shape' and e.value.id not in self.rename:
+                return '(EVar %s)' % _cstr(e.value.id + '.shape')      # the shape of a matrix argument: an input of the fragment
             raise TranslateError('unsupported attribute ' + ast.unparse(e))
         if isinstance(e, ast.UnaryOp):
             if isinstance(e.op, ast.Not):
@@ -66,6 +68,10 @@ class Tr:
                 return '(ENeg %s)' % self.expr(e.operand)
             raise TranslateError('unsupported unary operator in ' + ast.unparse(e))
         if isinstance(e, ast.BinOp):
+            # x * np.ones(n): n copies of x
+            if isinstance(e.op, ast.Mult) and isinstance(e.right, ast.Call) and ast.unparse(e.right.func) == 'np.ones' \
+                    and len(e.right.args) == 1 and not e.right.keywords:
+                return '(EFull %s %s)' % (self.expr(e.right.args[0]), self.expr(e.left))
             if type(e.op) not in BINOPS:
                 raise TranslateError('unsupported operator in ' + ast.unparse(e))
             return '(EBin %s %s %s)' % (BINOPS[type(e.op)], self.expr(e.left), self.expr(e.right))
@@ -103,7 +109,7 @@ class Tr:
                     raise TranslateError('unsupported subscript ' + ast.unparse(e))
                 return '(EIndex (EIndex %s %s) %s)' % (self.expr(e.value), self.expr(e.slice.elts[0]), self.expr(e.slice.elts[1]))
             return '(EIndex %s %s)' % (self.expr(e.value), self.expr(e.slice))
-        if isinstance(e, ast.List):
+        if isinstance(e, (ast.List, ast.Tuple)):
             return '(EList [%s])' % '; '.join(self.expr(x) for x in e.elts)
         if isinstance(e, ast.ListComp):
             if len(e.generators) != 1:
@@ -150,6 +156,15 @@ class Tr:
             if f.id == 'list' and len(c.args) == 1 and isinstance(c.args[0], ast.Call) and not c.args[0].args \
                     and not c.args[0].keywords and isinstance(c.args[0].func, ast.Attribute) and c.args[0].func.attr == 'values':
                 return '(EDictValues %s)' % self.expr(c.args[0].func.value)
+            if f.id == 'list' and len(c.args) == 1 and isinstance(c.args[0], ast.Call) and not c.args[0].args \
+                    and not c.args[0].keywords and isinstance(c.args[0].func, ast.Attribute) and c.args[0].func.attr == 'keys':
+                return '(EDictKeys %s)' % self.expr(c.args[0].func.value)
+            if f.id == 'isinstance' and len(c.args) == 2:
+                k = ast.unparse(c.args[1])
+                kinds = {'list': 'KList', 'dict': 'KDict', 'np.ndarray': 'KArray'}
+                if k not in kinds:
+                    raise TranslateError('isinstance with ' + k)
+                return '(EIsInst %s %s)' % (kinds[k], self.expr(c.args[0]))
             if f.id == 'int' and len(c.args) == 1:
                 return '(EIntOf %s)' % self.expr(c.args[0])
             if f.id == 'len' and len(c.args) == 1:
@@ -159,6 +174,15 @@ class Tr:
         if isinstance(f, ast.Attribute):
             if f.attr == 'pop' and isinstance(f.value, ast.Name) and len(c.args) == 1:
                 return '(EPop %s %s)' % (self.var(f.value.id), self.expr(c.args[0]))
+            if f.attr == 'min' and isinstance(f.value, ast.Name) and f.value.id == 'np' and len(c.args) == 1:
+                return '(EMin %s)' % self.expr(c.args[0])
+            if f.attr == 'ones' and isinstance(f.value, ast.Name) and f.value.id == 'np' and len(c.args) == 1:
+                return '(EOnes %s)' % self.expr(c.args[0])
+            if f.attr == 'hstack' and isinstance(f.value, ast.Name) and f.value.id == 'np' and len(c.args) == 1 \
+                    and isinstance(c.args[0], ast.Tuple) and len(c.args[0].elts) == 2:
+                return '(EHstack %s %s)' % (self.expr(c.args[0].elts[0]), self.expr(c.args[0].elts[1]))
+            if f.attr == 'astype' and len(c.args) == 1 and isinstance(c.args[0], ast.Name) and c.args[0].id == 'float':
+                return '(EAsFloat %s)' % self.expr(f.value)
             if f.attr == 'array' and isinstance(f.value, ast.Name) and f.value.id == 'np' and len(c.args) == 1:
                 return self.expr(c.args[0])       # np.array(list): an array is the list of its entries
             if f.attr == 'argsort' and isinstance(f.value, ast.Name) and f.value.id == 'np' and len(c.args) == 1:
@@ -191,6 +215,22 @@ class Tr:
             if len(s.targets) != 1:
                 raise TranslateError('multiple assignment targets')
             t = s.targets[0]
+            if isinstance(t, ast.Name) and isinstance(s.value, ast.Call) and isinstance(s.value.func, ast.Name) \
+                    and s.value.func.id in self.inline:
+                return self.inline_call(s.value, target=self.var(t.id))
+            if isinstance(t, ast.Tuple) and all(isinstance(x, ast.Name) for x in t.elts):
+                if isinstance(s.value, ast.Tuple) and len(s.value.elts) == len(t.elts):
+                    # a, b = ea, eb: both right-hand sides are evaluated first; sequential assignment is the same when no
+                    # right-hand side mentions an assigned name
+                    used = {n.id for v in s.value.elts for n in ast.walk(v) if isinstance(n, ast.Name)}
+                    if used & {x.id for x in t.elts}:
+                        raise TranslateError('tuple assignment whose right-hand side uses its targets: ' + ast.unparse(s))
+                    out = ['(SAssign %s %s)' % (self.var(x.id), self.expr(v)) for x, v in zip(t.elts, s.value.elts)]
+                    r = out[-1]
+                    for o in reversed(out[:-1]):
+                        r = '(SSeq %s\n %s)' % (o, r)
+                    return r
+                return '(SUnpack [%s] %s)' % ('; '.join(self.var(x.id) for x in t.elts), self.expr(s.value))
             if isinstance(t, ast.Name):
                 return '(SAssign %s %s)' % (self.var(t.id), self.expr(s.value))
             if isinstance(t, ast.Subscript) and isinstance(t.value, ast.Name) and not isinstance(t.slice, (ast.Slice, ast.Tuple)):
@@ -235,11 +275,14 @@ class Tr:
                 return '(SAppend %s %s)' % (self.var(c.func.value.id), self.expr(c.args[0]))
             if isinstance(c, ast.Call) and isinstance(c.func, ast.Name) and c.func.id in self.inline:
                 return self.inline_call(c)
+            if isinstance(c, ast.Call) and ast.unparse(c.func) == 'warnings.warn':
+                return 'SSkip'      # a warning has no effect on the values computed
             raise TranslateError('unsupported expression statement ' + ast.unparse(s))
         raise TranslateError('unsupported statement ' + ast.unparse(s).splitlines()[0])
 
-    def inline_call(self, c):
-        """f(a1, ..., k=v): bind the formals (renamed `f.formal`) to the actuals evaluated in the caller, then the body."""
+    def inline_call(self, c, target=None):
+        """f(a1, ..., k=v): bind the formals (renamed `f.formal`) to the actuals evaluated in the caller, then the body with every
+        local renamed `f.local`.  With `target`, the body must end with one `return e` (its only return): `target = e`."""
         fn = self.inline[c.func.id]
         a = fn.args
         if a.vararg or a.kwarg or a.posonlyargs or a.kwonlyargs:
@@ -257,7 +300,12 @@ class Tr:
             if k.arg is None or k.arg not in formals or k.arg in actual:
                 raise TranslateError('bad keyword %s for %s' % (k.arg, fn.name))
             actual[k.arg] = self.expr(k.value)
-        inner = Tr(self.inline, {f: '%s.%s' % (fn.name, f) for f in formals})
+        body = list(fn.body)
+        if body and isinstance(body[0], ast.Expr) and isinstance(body[0].value, ast.Constant) and isinstance(body[0].value.value, str):
+            body = body[1:]
+        stored = {n.id for st in body for n in ast.walk(st) if isinstance(n, ast.Name) and isinstance(n.ctx, ast.Store)}
+        rename = {f: '%s.%s' % (fn.name, f) for f in set(formals) | stored}
+        inner = Tr(self.inline, rename)
         binds = []
         for f in formals:
             if f in actual:
@@ -267,13 +315,23 @@ class Tr:
             else:
                 raise TranslateError('missing argument %s of %s' % (f, fn.name))
             binds.append('(SAssign %s %s)' % (inner.var(f), v))
-        # every name used in the callee must be a formal (no globals, no locals we would have to rename)
-        for n in (x for st in fn.body for x in ast.walk(st)):
-            if isinstance(n, ast.Name) and n.id not in formals and n.id not in ERRORS:
-                raise TranslateError('name %s in %s is not a parameter' % (n.id, fn.name))
-        t = inner.block(fn.body, tail=True)
+        # every name read in the callee must be a formal, a local, a builtin we translate, or an inlinable function
+        ok = set(rename) | set(ERRORS) | {'np', 'warnings', 'isinstance', 'list', 'dict', 'len', 'int', 'float', 'max', 'range',
+                                           'enumerate', 'Warning'} | set(self.inline)
+        for n in (x for st in body for x in ast.walk(st)):
+            if isinstance(n, ast.Name) and n.id not in ok:
+                raise TranslateError('name %s in %s is not a parameter or a local' % (n.id, fn.name))
+        if target is None:
+            t = inner.block(body, tail=True)
+        else:
+            if not body or not isinstance(body[-1], ast.Return) or body[-1].value is None or \
+                    any(isinstance(n, ast.Return) for st in body[:-1] for n in ast.walk(st)):
+                raise TranslateError('%s: expected a single `return e` at the end' % fn.name)
+            t = inner.block(body[:-1])
+            t = '(SSeq %s\n (SAssign %s %s))' % (t, target, inner.expr(body[-1].value))
         for b in reversed(binds):
             t = '(SSeq %s\n %s)' % (b, t)
+        self.oracles += inner.oracles
         return t
 
 
@@ -349,4 +407,46 @@ def pycuts():
     return '\n'.join(out) + '\n'
 
 
-FILES = {'PyCuts.v': pycuts}
+def pyvalues():
+    vals = ast.parse(_src('sknetwork/utils/values.py'))
+    fmt = ast.parse(_src('sknetwork/utils/format.py'))
+    gv, sv = _func(vals, 'get_values'), _func(vals, 'stack_values')
+    inline = {'get_values': gv, 'stack_values': sv}
+    out = ['(* generated from sknetwork/utils/values.py and utils/format.py by harness/translators/pyimp.py *)',
+           'From SKN Require Import Base.Util Model.PyImp.',
+           'From Coq Require Import String.',
+           'Local Open Scope string_scope.', '']
+
+    def body(fn):
+        b = list(fn.body)
+        if b and isinstance(b[0], ast.Expr) and isinstance(b[0].value, ast.Constant) and isinstance(b[0].value.value, str):
+            b = b[1:]
+        return b
+
+    def whole(fn, name):
+        b = body(fn)
+        if not isinstance(b[-1], ast.Return) or b[-1].value is None or \
+                any(isinstance(n, ast.Return) for st in b[:-1] for n in ast.walk(st)):
+            raise TranslateError('%s: expected a single `return e` at the end' % fn.name)
+        tr = Tr(inline)
+        out.append('Definition %s_params : list string := %s.' % (name, _strs([a.arg for a in fn.args.args])))
+        out.append('Definition %s : stmt :=\n (SSeq %s\n (SAssign "return" %s)).' % (name, tr.block(b[:-1]), tr.expr(b[-1].value)))
+        out.append('')
+
+    whole(gv, 'src_get_values')
+    whole(sv, 'src_stack_values')
+    # get_adjacency_values: the statement that computes `values` (between the call of get_adjacency and the `which` post-processing)
+    fn = _func(fmt, 'get_adjacency_values')
+    b = body(fn)
+    ifs = [i for i, s in enumerate(b) if isinstance(s, ast.If) and isinstance(s.test, ast.Name) and s.test.id == 'bipartite']
+    if len(ifs) != 1:
+        raise TranslateError('get_adjacency_values: expected one `if bipartite:`')
+    k = ifs[0]
+    out.append('Definition src_adjacency_values_params : list string := %s.' % _strs([a.arg for a in fn.args.args]))
+    out.append('Definition src_adjacency_values_before : list string := %s.' % _strs([ast.unparse(s) for s in b[:k]]))
+    out.append('Definition src_adjacency_values_core : stmt :=\n %s.' % Tr(inline).stmt(b[k]))
+    out.append('Definition src_adjacency_values_after : list string := %s.' % _strs([ast.unparse(s) for s in b[k + 1:]]))
+    return '\n'.join(out) + '\n'
+
+
+FILES = {'PyCuts.v': pycuts, 'PyValues.v': pyvalues}
